@@ -120,37 +120,40 @@ structure Answer where
   capIndex : Nat            -- index into the capacity list given
   script : Script
 
-/-- smallest capacity (first in the given ascending list) for which the search finds a script
-whose stream the reference decoder maps back to the input.  `hdr` = 0: no header codeword; 1: FNC1
-in first position; 5 / 6: Macro 05 / 06 codeword (then `body` is the message without the envelope
-and `full` the whole message; otherwise `body = full`).  The header codeword takes one codeword of
-the symbol; every candidate is re-checked with the reference decoder on the complete stream. -/
-def searchH (hdr : Nat) (full body : List Nat) (modes : Nat) (caps : List Nat) : Option Answer := Id.run do
-  let arr := body.toArray
+/-- the candidate scripts for one total capacity `capT`.  `hdr` = 0: no header codeword; 1: FNC1
+in first position; 5 / 6: Macro 05 / 06 codeword (then `body` is the message without the envelope).
+The header codeword takes one codeword of the symbol. -/
+def cands (hdr : Nat) (body : List Nat) (modes : Nat) (best : Array (Option Best)) (maxRun capT : Nat) : List Script :=
   let hl := if hdr = 0 then 0 else 1
+  if capT < hl then [] else
+  let cap := capT - hl
+  let l : List Script :=
+    (match fit body.toArray modes best cap maxRun with | some s => [s] | none => []) ++
+    -- whole-message candidates for long inputs (pure Base256 with its two length forms)
+    (if en modes 32 ∧ body.length ≥ 1 ∧ body.length ≤ 1555 then
+      (if 2 + body.length = cap then [{ header := 0, items := [.base256 body true], pad := 0 }] else []) ++
+      (let c := 1 + body.length + (if body.length ≤ 249 then 1 else 2)
+       if c ≤ cap then [{ header := 0, items := [.base256 body false], pad := cap - c }] else [])
+     else [])
+  l.map fun s0 => { s0 with header := hdr }
+
+/-- a candidate is accepted if its stream fills the capacity exactly and the reference decoder maps
+it back to the whole message (`full`), with the FNC1 flag as requested -/
+def accepts (hdr : Nat) (full : List Nat) (capT : Nat) (s : Script) : Bool :=
+  let cw := build s
+  cw.length == capT &&
+  match Stream.decode cw with
+  | .ok d => d.bytes == full && d.fnc1 == (hdr == 1)
+  | .error _ => false
+
+/-- smallest capacity (first in the given ascending list) for which the search finds a script
+whose stream the reference decoder maps back to the input -/
+def searchH (hdr : Nat) (full body : List Nat) (modes : Nat) (caps : List Nat) : Option Answer :=
   let maxRun := if body.length ≤ 48 then 48 else 0
-  let best := table arr modes maxRun
-  let mut k := 0
-  for capT in caps do
-    if capT ≥ hl then
-      let cap := capT - hl
-      -- whole-message candidates for long inputs (pure Base256 with its two length forms)
-      let cands : List Script :=
-        (match fit arr modes best cap maxRun with | some s => [s] | none => []) ++
-        (if en modes 32 ∧ body.length ≥ 1 ∧ body.length ≤ 1555 then
-          (if 2 + body.length = cap then [{ header := 0, items := [.base256 body true], pad := 0 }] else []) ++
-          (let c := 1 + body.length + (if body.length ≤ 249 then 1 else 2)
-           if c ≤ cap then [{ header := 0, items := [.base256 body false], pad := cap - c }] else [])
-         else [])
-      for s0 in cands do
-        let s : Script := { s0 with header := hdr }
-        let cw := build s
-        if cw.length = capT then
-          match Stream.decode cw with
-          | .ok d => if d.bytes == full ∧ d.fnc1 == (hdr == 1) then return some { capIndex := k, script := s }
-          | .error _ => pure ()
-    k := k + 1
-  return none
+  let best := table body.toArray modes maxRun
+  caps.zipIdx.findSome? fun (capT, k) =>
+    (cands hdr body modes best maxRun capT).findSome? fun s =>
+      if accepts hdr full capT s then some { capIndex := k, script := s } else none
 
 def search (input : List Nat) (modes : Nat) (caps : List Nat) : Option Answer := searchH 0 input input modes caps
 
